@@ -37,3 +37,9 @@ run C11 src/clikit/api/io/output.py 's/^        self\._quiet = False$/        se
 run C20 src/clikit/ui/components/exception_trace.py 's/^            # The source cannot be tokenized (it changed on disk after it was$/            # Fallback. The source cannot be tokenized (it changed on disk after it was/'
 run C02 src/clikit/args/default_args_parser.py 's/^        name = token\[2:\]$/        name = token[2:]  # without the two dashes/'
 run C17 src/clikit/console_application.py 's/^            command = resolved_command.command$/            command = resolved_command.command  # selected/'
+# added with the contracts of rounds 7 and 8
+run C07 src/clikit/api/args/format/option.py 's/^        self\._default = default$/        self._default = default  # as given/'
+run C12 src/clikit/api/config/application_config.py 's/^        self\._dispatcher\.add_listener(event_name, listener, priority)$/        self._dispatcher.add_listener(event_name, listener, priority)  # on the dispatcher of the configuration/'
+run C12 src/clikit/api/event/pre_handle_event.py 's/^        self\._handled = handled$/        self._handled = bool(handled) if handled is not True and handled is not False else handled/'
+run C05 src/clikit/args/argv_args.py 's/^        argv = argv\[:\]$/        argv = list(argv)/'
+run C04 src/clikit/console_application.py 's/^            parsed_args = resolved_command.args$/            parsed_args = resolved_command.args  # of this run/'
